@@ -2704,6 +2704,10 @@ func (col *DatabaseCollectionWithUser) documentUpdateFunc(
 	createNewRevIDSkipped bool,
 	err error) {
 
+	// Sequences left unused by earlier attempts of this update must survive an early error return, so that the
+	// caller can still release them.
+	retUnusedSequences = unusedSequences
+
 	err = validateExistingDoc(doc, allowImport, docExists)
 	if err != nil {
 		return
